@@ -220,7 +220,13 @@ func quote(v rt.Value) (string, bool) {
 	}
 	switch v.Type() {
 	case rt.IntType:
-		return strconv.Itoa(int(v.AsInt())), true
+		n := v.AsInt()
+		if n == math.MinInt64 {
+			// The decimal numeral of -math.mininteger does not fit an
+			// integer, so "-9223372036854775808" reads back as a float.
+			return "0x8000000000000000", true
+		}
+		return strconv.FormatInt(n, 10), true
 	case rt.FloatType:
 		x := v.AsFloat()
 		if math.IsInf(x, 0) {
